@@ -10,6 +10,7 @@ from ..astutil import Locals, anon, call_name, error_names, local_names, norm, r
 from ..cfg import walk_own
 from ..core import PKG, Report
 from ..domain import is_esc
+from .registries import _bind_full, _locals, _own_nodes, callers_of, receiver_classes
 from .siblings import Path as SimPath
 from .siblings import PathSim, _class_names, _strip, enum_builder_parity, enum_merge_parity, inline_tail_calls
 
@@ -20,9 +21,12 @@ LEVEL = ("structural clauses: semantic facts of each enum builder and of each en
          "every store of a member name (paths of values_from_list simulated for int / str members x duplicate found / not) is preceded by a "
          "duplicate test on the very key that is stored or names an integer member injectively, a found duplicate ends in a "
          "diagnostic; closed decode (enum construct calls the class, the "
-         "literal check function tests membership and its fall-through raises, const construct compares and raises), encode is "
-         ".value / identity; member values reach the class through a string context with a single escaping (label analysis of the "
-         "emission site), Literal members through repr only.")
+         "literal check function tests membership and its fall-through raises, the const decoder - read as Python under every "
+         "assignment of the template conditions - raises whenever a present value differs from the constant), encode is "
+         ".value / identity in every encoder macro, str(<member>) only together with a __str__ of the generated class that returns the "
+         "value; member values reach the class through a string context with a single escaping (label analysis of the "
+         "emission site), Literal members through repr only; nobody adds to the declared values (every write to the enum field of a "
+         "schema stores None or a selection of the old list).")
 
 
 def run(rep: Report, ctx: Any) -> str:
@@ -35,7 +39,9 @@ def run(rep: Report, ctx: Any) -> str:
 
     # ---- R14.3 closed decode -----------------------------------------------------------------------------------------
     rep.rule("R14.3", "decode is closed: Enum(value) / check_<name>(value) with membership test and raising fall-through / const "
-                      "comparison that raises; encode is .value or identity")
+                      "comparison that raises under every condition of the template (required and optional property alike); encode is "
+                      ".value or identity in every encoder macro of the enum template - an encoder that writes str(<member>) instead "
+                      "relies on the generated class, whose __str__ must then return the value")
     et = jx.templates.get("property_templates/enum_property.py.jinja")
     lt = jx.templates.get("property_templates/literal_enum_property.py.jinja")
     ct = jx.templates.get("property_templates/const_property.py.jinja")
@@ -57,6 +63,7 @@ def run(rep: Report, ctx: Any) -> str:
     ok = all(".value" in "".join(ts) for ts in arms.values())
     rep.check(ok, "R14.3", "enum_property::transform", "encoding an enum no longer uses `.value`", where=f"{PKG}/templates/{et.name}",
               lhs=[t.strip()[:60] for ts in arms.values() for t in ts if ".value" in t][:2], rhs="source + '.value'")
+    _enum_encoders(rep, jx, et)
     cf2 = tplq.macro_frags(lt, "construct_function")
     txt2 = "".join(f_.text if f_.kind == "data" else "{" + f_.text + "}" for f_ in cf2)
     rep.check("check_{" in txt2 and "({source})" in txt2, "R14.3", "literal_enum_property::construct_function",
@@ -67,11 +74,13 @@ def run(rep: Report, ctx: Any) -> str:
     ok, shown = _check_function_closed(le)
     rep.check(ok, "R14.3", "literal_enum.py.jinja::check-function", "the literal-enum check function does not return exactly the values that "
               "are in the value set and raise for the others", where=f"{PKG}/templates/{le.name}", lhs=shown, rhs="member -> returned, else raise")
-    cons = tplq.macro_frags(ct, "construct")
-    ctxt = "".join(f_.text if f_.kind == "data" else "{" + f_.text + "}" for f_ in cons)
-    ok = "!= {property.value.python_code}" in ctxt and "raise ValueError" in ctxt
-    rep.check(ok, "R14.3", "const_property::construct", "decoding a const no longer compares with the constant and raises",
-              where=f"{PKG}/templates/{ct.name}", lhs=ctxt.strip()[:120], rhs="if x != <const>: raise ValueError")
+    # the const decoder, read as the Python it is under every assignment of the template's conditions: with a value present that
+    # differs from the constant every path ends in a raise - wherever the guard for an unset optional value is written, whatever
+    # the polarity of the comparison
+    ok, shown = _const_check_closed(ct)
+    rep.check(ok, "R14.3", "const_property::construct", "decoding a const does not, under every condition of the template, compare the "
+              "value with the constant and raise when they differ", where=f"{PKG}/templates/{ct.name}", lhs=shown,
+              rhs="required and optional alike: value present and != <const> -> raise")
 
     # ---- R14.4 values intact ---------------------------------------------------------------------------------------------
     rep.rule("R14.4", "member values are emitted in a string context with a single escaping (str) or as numbers; Literal members "
@@ -109,6 +118,7 @@ def run(rep: Report, ctx: Any) -> str:
                       "a member value reaches the generated Literal / VALUES set through a conversion that does not produce the Python "
                       f"literal of the value: {conv or 'none (str())'}", where=f"{PKG}/templates/{le.name}:{c.lineno}", lhs=conv, rhs=["format:%r"])
     rep.floor("literal_value_outputs", n_lit, 1)
+    _declared_values_not_extended(rep, ctx)
     rep.not_decided.append("behaviour of Enum(value) itself (CPython)")
     return LEVEL
 
@@ -150,6 +160,311 @@ def _check_function_closed(le: Any) -> "tuple[bool, str | None]":
     yes, no = ends(True), ends(False)
     ok = bool(tests) and bool(yes) and bool(no) and all(returns_value(p) for p in yes) and all(isinstance(p.end, ast.Raise) for p in no)
     return ok, ast.unparse(fn)[:160]
+
+
+def _sym_text(text: str, names: dict[str, str]) -> str:
+    """what a template expression writes, as far as it can be told: a name from `names` is its identifier, a string constant its
+    text, a concatenation (+) of such the concatenation - `"str(" + source + ")"` writes str(SOURCE); anything else is X"""
+    try:
+        tree = ast.parse(text.strip(), mode="eval").body
+    except SyntaxError:
+        return "X"
+
+    def go(e: ast.expr) -> "str | None":
+        if isinstance(e, ast.Constant) and isinstance(e.value, str):
+            return e.value
+        if isinstance(e, (ast.Name, ast.Attribute)) and ast.unparse(e) in names:
+            return names[ast.unparse(e)]
+        if isinstance(e, ast.BinOp) and isinstance(e.op, ast.Add):
+            a_, b_ = go(e.left), go(e.right)
+            return None if a_ is None or b_ is None else a_ + b_
+        return None
+
+    return go(tree) or "X"
+
+
+def _as_python(frs: list[Any], env: "dict[str, bool] | None", names: "dict[str, str] | None" = None) -> str:
+    """the text a list of template fragments produces (under the assignment env of the template conditions, all of them when env is
+    None), with every output expression replaced by what it writes as far as that is known (see _sym_text), X otherwise"""
+    from jinja2 import nodes as jn
+
+    out = []
+    for f_ in frs:
+        if env is not None and not tplq.guard_holds(f_, env):
+            continue
+        if f_.kind == "data":
+            out.append(f_.text)
+        elif isinstance(f_.node, jn.Const) and isinstance(f_.node.value, str):
+            out.append(f_.node.value)
+        else:
+            out.append(_sym_text(f_.text, names or {}))
+    return "".join(out)
+
+
+def _const_check_closed(ct: Any) -> "tuple[bool, str | None]":
+    frs = tplq.macro_frags(ct, "construct")
+    atoms_: list[str] = []
+    for f_ in frs:
+        atoms_ += [a for a in tplq.guard_atoms(f_) if a not in atoms_]
+    if not frs or len(atoms_) > 8:
+        return False, "construct macro missing or too many conditions"
+    roles = {"property.python_name": "VALUE", "source": "SOURCE", "property.value.python_code": "CONST"}
+
+    def subject(e: ast.expr) -> bool:
+        e = _strip(e)
+        return isinstance(e, ast.Name) and e.id in ("VALUE", "SOURCE")
+
+    for env in tplq.assignments(atoms_):
+        body = _as_python(frs, env, roles)
+        text = "def f():\n" + "".join("    " + ln + "\n" for ln in body.splitlines()) + "    pass\n"
+        shown = ", ".join(f"{k}={v}" for k, v in env.items())
+        try:
+            fn = ast.parse(text).body[0]
+        except SyntaxError:
+            return False, f"[{shown}] generated decoder does not parse: {body.strip()[:80]}"
+        compared = [False]
+
+        def leaf(e: ast.expr, st: dict, sim: PathSim, compared: list = compared) -> "bool | None":
+            if isinstance(e, ast.Compare) and len(e.ops) == 1:
+                a, b, op = sim.resolve(e.left, st), sim.resolve(e.comparators[0], st), e.ops[0]
+                for x, y in ((a, b), (b, a)):
+                    if subject(x) and isinstance(y, ast.Name) and y.id == "CONST" and isinstance(op, (ast.Eq, ast.NotEq)):
+                        compared[0] = True
+                        return isinstance(op, ast.NotEq)
+                if subject(a) and isinstance(op, (ast.In, ast.NotIn)) and isinstance(b, (ast.Tuple, ast.List, ast.Set)) and \
+                        [n.id for n in b.elts if isinstance(n, ast.Name)] == ["CONST"] and len(b.elts) == 1:
+                    compared[0] = True
+                    return isinstance(op, ast.NotIn)
+                # the value is present: not the UNSET marker
+                if subject(a) and isinstance(op, (ast.Is, ast.IsNot)) and isinstance(b, ast.Name) and b.id == "UNSET":
+                    return isinstance(op, ast.IsNot)
+            if isinstance(e, ast.Call) and call_name(e) == "isinstance" and len(e.args) == 2 and subject(sim.resolve(e.args[0], st)) and \
+                    _class_names(e.args[1]) == ["Unset"]:
+                return False
+            return None
+
+        paths = PathSim(fn, leaf).paths()
+        if not (paths and compared[0] and all(isinstance(p_.end, ast.Raise) for p_ in paths)):
+            return False, f"[{shown}] " + " ".join(body.split())[:120]
+    return True, None
+
+
+def _member_uses(text: str) -> "set[str] | None":
+    """how the Python text uses SOURCE (the member to encode): 'value' (reads .value), 'str' (str(SOURCE) / format(SOURCE)), 'other';
+    tests whether it is there at all (isinstance / is) do not count.  None: the text does not parse"""
+    try:
+        tree = ast.parse("".join(ln + "\n" for ln in text.splitlines() if ln.strip()))
+    except SyntaxError:
+        try:
+            import textwrap
+
+            tree = ast.parse(textwrap.dedent(text))
+        except SyntaxError:
+            return None
+    parent: dict[int, ast.AST] = {}
+    for n in ast.walk(tree):
+        for c in ast.iter_child_nodes(n):
+            parent[id(c)] = n
+    out: set[str] = set()
+    for n in ast.walk(tree):
+        if not (isinstance(n, ast.Name) and n.id == "SOURCE"):
+            continue
+        up = parent.get(id(n))
+        if isinstance(up, ast.Attribute) and up.attr in ("value", "_value_"):
+            out.add("value")
+        elif isinstance(up, ast.Call) and call_name(up) in ("str", "format") and up.args == [n] and not up.keywords:
+            out.add("str")
+        elif isinstance(up, ast.FormattedValue) and up.format_spec is None:
+            out.add("str")
+        elif isinstance(up, ast.Call) and call_name(up) == "isinstance":
+            continue
+        elif isinstance(up, ast.Compare) and all(isinstance(o, (ast.Is, ast.IsNot)) for o in up.ops):
+            continue
+        else:
+            out.add("other")
+    return out
+
+
+def _enum_encoders(rep: Report, jx: Any, et: Any) -> None:
+    """every encoder of the enum property template (the macros that turn a member into what is sent: transform*) writes the member's
+    `.value`; one that writes str(<member>) leaves the conversion to the generated class, so the class templates must define __str__ and
+    return the value from it (str() of an Enum member is otherwise not its value)"""
+    n_enc = 0
+    relies_on_str: list[str] = []
+    for name in sorted(et.macros):
+        if not name.startswith("transform"):
+            continue
+        frs = tplq.macro_frags(et, name)
+        atoms_: list[str] = []
+        for f_ in frs:
+            atoms_ += [a for a in tplq.guard_atoms(f_) if a not in atoms_]
+        if len(atoms_) > 8:
+            atoms_ = []
+        bad = []
+        for env in (tplq.assignments(atoms_) if atoms_ else [None]):
+            text = _as_python(frs, env, {"source": "SOURCE"})
+            uses = _member_uses(text)
+            if uses is None:
+                flat = re.sub(r"\s", "", text)
+                uses = ({"value"} if "SOURCE.value" in flat else set()) | ({"str"} if "str(SOURCE)" in flat else set())
+                uses = uses or {"other"}
+            if "str" in uses:
+                relies_on_str.append(name)
+            if "other" in uses or not uses:
+                bad.append((", ".join(f"{k}={v}" for k, v in (env or {}).items()) or "always") + ": " + " ".join(text.split())[:60])
+        n_enc += 1
+        if name == "transform":
+            continue  # reported under its own key above
+        rep.check(not bad, "R14.3", f"enum_property::{name}", "an encoder of the enum template writes neither the member's `.value` nor "
+                  "str(<member>): what is sent is not the listed value", where=f"{PKG}/templates/{et.name}", lhs=bad, rhs=".value / str(member)")
+    rep.floor("enum_encoders", n_enc, 1)
+    # path parameters are written into the URL as they are (formatted by the generated code, no encoder macro in between): a member
+    # that is a path parameter is converted by format() / str(), too
+    em = jx.templates.get("endpoint_module.py.jinja")
+    if em is not None and any(fr.kind == "expr" and "endpoint.path_parameters" in fr.loops and
+                              fr.text.strip("()").endswith("endpoint.path_parameters[*].python_name") for fr in tplq.frags(em.tree.body)):
+        relies_on_str.append("<url: path parameters formatted as they are>")
+    for tname in ("str_enum.py.jinja", "int_enum.py.jinja"):
+        ti = jx.templates.get(tname)
+        rep.require(ti, tname)
+        ok, shown = _str_is_value(ti)
+        rep.check(ok or not relies_on_str, "R14.3", f"{tname}::__str__", f"the encoders {sorted(set(relies_on_str))} send str(<member>), but the "
+                  "generated enum class does not define __str__ to return the member's value: 'ClassName.MEMBER' is sent instead of the "
+                  "listed value", where=f"{PKG}/templates/{tname}", lhs=shown, rhs="def __str__(self): return str(self.value)")
+
+
+def _str_is_value(ti: Any) -> "tuple[bool, str | None]":
+    """the generated class defines __str__ and every path of it returns the member's value (as text)"""
+    text = _as_python(list(tplq.frags(ti.tree.body)), None)
+    try:
+        tree = ast.parse(text)
+    except SyntaxError:
+        return False, "generated module does not parse with placeholders"
+    classes = [n for n in tree.body if isinstance(n, ast.ClassDef)]
+    if len(classes) != 1:
+        return False, f"{len(classes)} classes"
+    fns = [n for n in classes[0].body if isinstance(n, ast.FunctionDef) and n.name == "__str__" and n.args.args]
+    if len(fns) != 1:
+        return False, "no __str__"
+    me = fns[0].args.args[0].arg
+
+    def is_value(e: "ast.expr | None") -> bool:
+        if isinstance(e, ast.Call) and call_name(e) in ("str", "format") and len(e.args) == 1 and not e.keywords:
+            return is_value(e.args[0])
+        if isinstance(e, ast.JoinedStr) and len(e.values) == 1 and isinstance(e.values[0], ast.FormattedValue) and e.values[0].format_spec is None:
+            return is_value(e.values[0].value)
+        return isinstance(e, ast.Attribute) and e.attr in ("value", "_value_") and isinstance(e.value, ast.Name) and e.value.id == me
+
+    paths = PathSim(fns[0]).paths()
+    ok = bool(paths) and all(isinstance(p_.end, ast.Return) and is_value(PathSim(fns[0]).resolve(p_.end.value, p_.end_state) if p_.end.value is not None else None)
+                             for p_ in paths)
+    return ok, ast.unparse(fns[0])[:100]
+
+
+# =====================================================================================================================
+# R14.5: nobody adds to the declared values
+# =====================================================================================================================
+_SELECTING = {"cast", "typing.cast", "list", "tuple", "sorted", "set", "frozenset", "reversed", "filter", "copy", "deepcopy", "copy.copy",
+              "copy.deepcopy"}
+ENUM_FIELD = "enum"
+
+
+def _declared_values_not_extended(rep: Report, ctx: Any) -> None:
+    rep.rule("R14.5", "the list of declared values is never added to: every write to the `enum` field of a document schema - an "
+                      "assignment to <schema>.enum, the `enum` entry of a model_copy(update=...) / evolve, an in-place append / extend / "
+                      "insert / += on it - stores None or a selection of the values that were there (the list itself, a filter over it; "
+                      "a parameter of a private helper is what its callers hand over).  What the builders admit is what the document lists")
+    ix = ctx.py
+    schema_classes = {c.name for c in ix.classes.values() if ENUM_FIELD in ix.all_fields(c) and
+                      (c.module.name == f"{PKG}.schema" or c.module.name.startswith(f"{PKG}.schema."))}
+    rep.require(schema_classes, f"a class of the document model with a field `{ENUM_FIELD}`")
+
+    def of_schema(f: Any, recv: ast.AST) -> bool:
+        known = receiver_classes(ix, f, recv)
+        return not known or bool(known & schema_classes)
+
+    def selection(f: Any, e: "ast.AST | None", busy: frozenset = frozenset(), depth: int = 2) -> bool:
+        if e is None:
+            return False
+        if isinstance(e, ast.Constant):
+            return e.value is None
+        if isinstance(e, ast.Attribute):
+            return e.attr == ENUM_FIELD
+        if isinstance(e, ast.BoolOp):
+            return all(selection(f, v, busy, depth) or (isinstance(v, (ast.List, ast.Tuple)) and not v.elts) for v in e.values)
+        if isinstance(e, ast.IfExp):
+            return selection(f, e.body, busy, depth) and selection(f, e.orelse, busy, depth)
+        if isinstance(e, ast.Subscript):
+            return isinstance(e.slice, ast.Slice) and selection(f, e.value, busy, depth)
+        if isinstance(e, (ast.List, ast.Tuple)):
+            return not e.elts or (len(e.elts) == 1 and isinstance(e.elts[0], ast.Starred) and selection(f, e.elts[0].value, busy, depth))
+        if isinstance(e, (ast.ListComp, ast.GeneratorExp, ast.SetComp)):
+            g = e.generators
+            return len(g) == 1 and isinstance(g[0].target, ast.Name) and isinstance(e.elt, ast.Name) and e.elt.id == g[0].target.id and \
+                selection(f, g[0].iter, busy, depth)
+        if isinstance(e, ast.Call):
+            cn = call_name(e)
+            if cn in _SELECTING and e.args and not e.keywords:
+                return selection(f, e.args[-1], busy, depth)
+            last = cn.rsplit(".", 1)[-1]
+            if last.startswith("_") and not last.startswith("__") and depth > 0:
+                # a private helper of the same module / class: a selection when everything it returns is one (its parameters are what
+                # its callers hand over)
+                hs = [g for g in region(ix, f, depth=1) if g is not f and g.name == last]
+                rets = [r.value for g in hs for r in _own_nodes(g.node) if isinstance(r, ast.Return)]
+                return len(hs) == 1 and bool(rets) and all(selection(hs[0], r, frozenset(), depth) for r in rets)
+            return False
+        if isinstance(e, ast.Name):
+            if e.id in busy:
+                return True
+            ds = _locals(f.node).defs.get(e.id, [])
+            if e.id in {x.arg for x in f.params}:
+                # what a private helper is handed: every call site hands over a selection
+                if ds or depth <= 0 or not f.name.startswith("_"):
+                    return False
+                sites = callers_of(ix, f)
+                return bool(sites) and all(e.id in _bind_full(f, c) and selection(g, _bind_full(f, c)[e.id], frozenset(), depth - 1)
+                                           for g, c in sites)
+            return bool(ds) and all(k.startswith(("assign", "for")) and v is not None and
+                                    (selection(f, v, busy | {e.id}, depth) if k == "assign" else False) for k, _, v in ds)
+        return False
+
+    n = 0
+    for f in ix.all_functions:
+        lnames = local_names(f.node)
+        for node in _own_nodes(f.node):
+            writes: list[tuple[ast.AST, "ast.AST | None", str]] = []
+            if isinstance(node, (ast.Assign, ast.AnnAssign)) and node.value is not None:
+                for t in (node.targets if isinstance(node, ast.Assign) else [node.target]):
+                    if isinstance(t, ast.Attribute) and t.attr == ENUM_FIELD and of_schema(f, t.value):
+                        writes.append((node, node.value, "="))
+            elif isinstance(node, ast.AugAssign) and isinstance(node.target, ast.Attribute) and node.target.attr == ENUM_FIELD and \
+                    of_schema(f, node.target.value):
+                writes.append((node, None, "+="))
+            elif isinstance(node, ast.Call) and isinstance(node.func, ast.Attribute):
+                recv = node.func.value
+                if node.func.attr in ("append", "extend", "insert", "add", "update") and isinstance(recv, ast.Attribute) and \
+                        recv.attr == ENUM_FIELD and of_schema(f, recv.value):
+                    writes.append((node, None, node.func.attr))
+                if node.func.attr in ("model_copy", "copy") and of_schema(f, recv):
+                    for k in node.keywords:
+                        if k.arg == "update" and isinstance(k.value, ast.Dict):
+                            for dk, dv in zip(k.value.keys, k.value.values):
+                                if isinstance(dk, ast.Constant) and dk.value == ENUM_FIELD:
+                                    writes.append((node, dv, "update"))
+            if isinstance(node, ast.Call) and call_name(node).rsplit(".", 1)[-1] in ("evolve", "replace") and node.args and \
+                    of_schema(f, node.args[0]) and receiver_classes(ix, f, node.args[0]) & schema_classes:
+                for k in node.keywords:
+                    if k.arg == ENUM_FIELD:
+                        writes.append((node, k.value, "evolve"))
+            for at, value, how in writes:
+                n += 1
+                ok = value is not None and selection(f, value)
+                rep.check(ok, "R14.5", f"{short(f)}::{ENUM_FIELD} {how} {anon(value, lnames) if value is not None else '...'}",
+                          "the list of declared values of a schema is written with something that is not a selection of the values it "
+                          "had: a value the document does not list can become a member (or turn the property nullable)",
+                          where(f, at), lhs=norm(at)[:80], rhs="None / the old list / a filter over it")
+    rep.floor("declared_value_writes", n, 2)
 
 
 def norm_j(n: Any) -> str:
